@@ -1,12 +1,16 @@
-//! C08: harness not built yet.
+//! C08: see admin_common.rs (shared state-level harness of C07 / C08 / C11).
 use crate::Args;
+#[path = "admin_common.rs"]
+pub mod admin_common;
+#[path = "admin_gen.rs"]
+pub mod admin_gen;
+#[path = "admin_handlers.rs"]
+pub mod admin_handlers;
 
-pub fn gen(_a: &Args) -> String {
-    eprintln!("C08: harness not built yet");
-    std::process::exit(2);
+pub fn gen(a: &Args) -> String {
+    admin_gen::gen("C08", a)
 }
 
-pub fn replay(_a: &Args) -> String {
-    eprintln!("C08: harness not built yet");
-    std::process::exit(2);
+pub fn replay(a: &Args) -> String {
+    admin_gen::replay(a)
 }
